@@ -128,21 +128,19 @@ impl<const BITS: usize, const LIMBS: usize> Encode for CompactRefUint<'_, BITS, 
     fn encode_to<T: Output + ?Sized>(&self, dest: &mut T) {
         assert_compact_supported::<BITS>();
 
+        #[cfg(feature = "recmo_uint_verif")]
+        match self.0.bit_len() {
+            7..=14 => crate::verif_hooks::hit(166),
+            15..=30 => crate::verif_hooks::hit(167),
+            _ => {}
+        }
         match self.0.bit_len() {
             // 0..=0b0011_1111
             0..=6 => dest.push_byte((self.0.to::<u8>()) << 2),
             // 0..=0b0011_1111_1111_1111
-            7..=14 => {
-                #[cfg(feature = "recmo_uint_verif")]
-                crate::verif_hooks::hit(166);
-                ((self.0.to::<u16>() << 2) | 0b01).encode_to(dest);
-            }
+            7..=14 => ((self.0.to::<u16>() << 2) | 0b01).encode_to(dest),
             // 0..=0b0011_1111_1111_1111_1111_1111_1111_1111
-            15..=30 => {
-                #[cfg(feature = "recmo_uint_verif")]
-                crate::verif_hooks::hit(167);
-                ((self.0.to::<u32>() << 2) | 0b10).encode_to(dest);
-            }
+            15..=30 => ((self.0.to::<u32>() << 2) | 0b10).encode_to(dest),
             _ => {
                 #[cfg(feature = "recmo_uint_verif")]
                 crate::verif_hooks::hit(165);
